@@ -56,6 +56,21 @@ class JSText:
         return f"<json {self.tree!r}{self.suffix!r}>"
 
 
+class JSLines:
+    """Several JSON texts joined by a line break ("\\n".join([...])): written to a file they are consecutive lines."""
+
+    def __init__(self, parts):
+        self.parts = list(parts)
+
+    def __add__(self, other):
+        if isinstance(other, str) and self.parts:
+            return JSLines(self.parts[:-1] + [self.parts[-1] + other])
+        return NotImplemented
+
+    def __repr__(self):
+        return f"<json lines {self.parts!r}>"
+
+
 def tree_of(it, obj, default, depth=0):
     if depth > 60:
         raise PyRaise(ValueError("Circular reference detected"))
